@@ -67,6 +67,8 @@ class BaseEngine(abc.ABC):
         self.samples = None
         #: Dict[Any, List]: the measurement results as a dictionary with measured modes as keys
         self.samples_dict = None
+        #: Dict[int, Any]: latest measured value of each mode since the backend was initialized
+        self._measured_vals = {}
 
         if isinstance(backend, str):
             self.backend_name = backend
@@ -134,6 +136,7 @@ class BaseEngine(abc.ABC):
             p._clear_regrefs()
         self.run_progs.clear()
         self.samples = None
+        self._measured_vals = {}
 
     def print_applied(self, print_fn=print):
         """Print all the Programs run since the backend was initialized.
@@ -263,6 +266,8 @@ class BaseEngine(abc.ABC):
         # Measurements need to know about shots
 
         prev = self.run_progs[-1] if self.run_progs else None  # previous program segment
+        if prev is None:
+            self._measured_vals = {}
         for p in program:
 
             if self.backend.compiler:
@@ -296,8 +301,9 @@ class BaseEngine(abc.ABC):
                 # Copy the latest measured values in the RegRefs of p.
                 # We cannot copy from prev directly because it could be used in more than one
                 # engine.
-                for k, v in enumerate(self.samples):
-                    p.reg_refs[k].val = v
+                for k, v in self._measured_vals.items():
+                    if k in p.reg_refs:
+                        p.reg_refs[k].val = v
 
             # bind free parameters to their values
             p.bind_params(args)
@@ -305,6 +311,9 @@ class BaseEngine(abc.ABC):
 
             _, self.samples, self.samples_dict = self._run_program(p, **kwargs)
             self.run_progs.append(p)
+            if not isinstance(p, TDMProgram):
+                # remember the latest value measured on each mode (samples_dict: mode -> list of values)
+                self._measured_vals.update({k: v[-1] for k, v in (self.samples_dict or {}).items()})
 
             if isinstance(p, TDMProgram) and received_rolled:
                 p.roll()
